@@ -10,7 +10,6 @@ import (
 	"os/exec"
 	"path/filepath"
 	"runtime"
-	"runtime/debug"
 	"runtime/pprof"
 	"strings"
 	"sync/atomic"
@@ -473,10 +472,7 @@ var c39Types = []string{"syn_stream", "syn_reply", "headers", "rst_stream", "set
 // and one short non-empty value.
 func c39LenChangingFrame(g *vkit.Rand, name string) fdesc {
 	fd := fdesc{Type: c39Types[g.Intn(3)], StreamId: c39Sid(g), Priority: uint8(g.Intn(8))}
-	v := []byte("v")
-	if g.Bool() {
-		v = []byte(strings.Repeat("w", 1+g.Intn(100)))
-	}
+	v := []byte(strings.Repeat("w", 1+g.Intn(4))) // short: bounds the bogus length a desynchronised reader sees
 	fd.Headers = []hdesc{{Name: []byte(name), Values: [][]byte{v}}}
 	return fd
 }
@@ -1010,10 +1006,10 @@ func c39Mutate(g *vkit.Rand, wire []byte, frames []fdesc, ends []int) []byte {
 		}
 		return false
 	}
-	switch g.Intn(10) {
-	case 0, 1:
+	switch g.Intn(30) {
+	case 0, 1, 2, 3, 4, 5:
 		return b[:g.Intn(len(b))]
-	case 2:
+	case 6:
 		i := g.Intn(len(b))
 		if !allowed(i, true) {
 			return b[:i]
@@ -1070,6 +1066,8 @@ func c39TypeName(b []byte) string {
 	return "unknown"
 }
 
+var c39DevTrace = os.Getenv("VERIF_C39_DEV_TRACE") != ""
+
 const (
 	c39AllocC     = 4
 	c39AllocSlack = 64 << 10
@@ -1114,6 +1112,13 @@ func c39ReadHostile(r *vkit.Run, st *c39Stats, h *c39Hostile, measure bool) {
 			declared = binary.BigEndian.Uint32(h.Stream[start+4:start+8]) & 0xffffff
 		}
 		tname := c39TypeName(h.Stream[start:])
+		if c39DevTrace && tname == "data" && declared > 1<<20 {
+			kinds := ""
+			for _, x := range h.Frames {
+				kinds += x.Kind + ","
+			}
+			fmt.Fprintf(os.Stderr, "BIGDATA origin=%s declared=%d start=%d n=%d kinds=%s\n", h.Origin, declared, start, n, kinds)
+		}
 		var f bfe_spdy.Frame
 		var rerr error
 		if measure {
@@ -1169,9 +1174,9 @@ func c39ReadHostile(r *vkit.Run, st *c39Stats, h *c39Hostile, measure bool) {
 			if src.pos > want {
 				dir = "over-read"
 			}
-			r.Violation("boundary:"+tname+":declared-length-ignored:"+dir,
-				fmt.Sprintf("%s frame at offset %d declares %d payload bytes; ReadFrame succeeded having consumed %d (frame boundary at %d, reader at %d)",
-					tname, start, declared, src.pos-start, want, src.pos), h)
+			r.Violation("boundary:"+tname+":declared-length-ignored",
+				fmt.Sprintf("%s frame at offset %d declares %d payload bytes; ReadFrame succeeded having consumed %d (%s: frame boundary at %d, reader at %d)",
+					tname, start, declared, src.pos-start, dir, want, src.pos), h)
 			return
 		}
 	}
@@ -1399,8 +1404,6 @@ func c39(r *vkit.Run) {
 		"Announcements of 2^30..2^32-1 bytes run in a re-executed child under ulimit -v 2 GiB. Non-trivial = sequence with >= 1 header-bearing frame, or hostile stream that is not purely random bytes; distinct = hash of the wire bytes + delivery mode.")
 	r.Assume("zlib stream header (SPDY/3 dictionary id) learned from the first block bfe's own writer emits; crafted blocks use stored deflate blocks only, so no dictionary content is needed")
 	st := &c39Stats{}
-	// fewer collections: every NewFramer takes a zlib writer from a sync.Pool that each GC empties
-	debug.SetGCPercent(400)
 	zhdr, err := c39ZlibHeader()
 	if err != nil {
 		r.Inconclusive(err.Error())
@@ -1496,11 +1499,11 @@ func c39(r *vkit.Run) {
 	})
 
 	phase("roundtrip+mutations")
-	// ---- phase 2b (parallel): crafted hostile streams, announcements <= 1 MiB
+	// ---- phase 2b (parallel): crafted hostile streams, announcements <= 128 KiB
 	nCraft := r.N(40000, 800000) / div
 	vkit.Parallel(nCraft, 0, func(i int) {
 		g := r.Rng("craft", i)
-		h := c39GenHostile(g, zhdr, 1<<20)
+		h := c39GenHostile(g, zhdr, 128<<10)
 		c39ReadHostile(r, st, h, false)
 		nt := false
 		for _, f := range h.Frames[:len(h.Frames)-1] {
